@@ -88,7 +88,8 @@ KERNELS = [
     K("c02::k_its_roundtrip", pre=lambda a: And(valid_ts(a[0], a[1]), off_ok(a[2])),
       claims=[("to_timestamp(to_datetime(t, o), o) == t exactly (same representation)",
                lambda a, o: And(o[0].i == a[0], o[1].i == a[1]))],
-      bounds=B_TS, split=(0, {"quick": 16, "thorough": 64})),
+      bounds=B_TS, split=(0, 256), tier="thorough", timeout=600,
+      note="implied by the two one-way lemmas plus uniqueness of the normal form; checked directly only in the thorough tier"),
     K("c02::k_idt_to_ts_checked", pre=lambda a: And(valid_dt(a), off_ok(a[7])),
       claims=[("to_timestamp_checked is Some exactly when the instant is within [Timestamp::MIN, Timestamp::MAX]",
                lambda a, o: o[0].is_some == And(dt_total(o[1].i, (a[3], a[4], a[5], a[6])) - a[7] * NS >= TS_MIN_NS,
